@@ -30,7 +30,25 @@ def gen(tier, rng):
         r = "rt %s %s ;; %s" % (mode, e, d)
         out.append(r)
         ORACLE[r] = (mode, t)
+    # an OCTET STRING value decoded from any BER form (any segmentation, definite or indefinite at every
+    # level), encoded again in BER (segmentation kept) and in DER (flattened), and decoded from that
+    for i in range(600 if tier == "quick" else 6000):
+        data = bytes(rng.randrange(256) for _ in range(rng.choice([0, 1, 2, 3, 5, 9])))
+        form = rand_os_form(rng, data)
+        for em in ("ber", "der"):
+            r = "rt %s OS u4 ber %s ;; T os" % (em, hx(form))
+            out.append(r)
+            OSRT[r] = (data, form, em)
     return out
+
+OSRT = {}
+def os_content(dec):
+    """content of an `os:` trace item: p<hex> or c<seg>,<seg>,…"""
+    import re
+    m = re.match(r"ok os:([pc])([0-9a-f,\-]*) \| rest=0$", " ".join(dec.split()))
+    if not m:
+        return None
+    return bytes.fromhex(m.group(2).replace(",", "").replace("-", ""))
 
 def phase2(reqs, answers):
     """the produced octets must be a well-formed encoding under the mode's rules: ask for a generic read"""
@@ -53,6 +71,15 @@ def relational(reqs, answers):
         if r in WELL:
             if not a.startswith("ok "):
                 fails.append({"request": WELL[r], "impl": "produced octets rejected by a generic read: " + a, "spec": "the produced octets are a well-formed encoding"})
+            continue
+        if r in OSRT:
+            data, form, em = OSRT[r]
+            got = os_content(a.split(" dec=[")[1].split("]")[0]) if a.startswith("ok len=") else None
+            if got != data:
+                f = {"request": r, "impl": a[:400], "spec": "decoding the re-encoded octet string yields the content " + hx(data)}
+                if em == "ber" and form[:2] == bytes([0x24, 0x80]):
+                    f["sig"] = "D12"
+                fails.append(f)
             continue
         if r not in ORACLE:
             continue
